@@ -750,7 +750,19 @@ class BinaryOp(Expr):
         return result
 
     def _eval_string(self):
-        return self.left.eval() + self.right.eval()
+        left = self.left.eval()
+        right = self.right.eval()
+        if self.op.is_comparison:
+            result = {
+                Operator.CMP_EQ: lambda a, b: a == b,
+                Operator.CMP_NE: lambda a, b: a != b,
+                Operator.CMP_LT: lambda a, b: a < b,
+                Operator.CMP_GT: lambda a, b: a > b,
+                Operator.CMP_LE: lambda a, b: a <= b,
+                Operator.CMP_GE: lambda a, b: a >= b,
+            }[self.op](left, right)
+            return -1 if result else 0
+        return left + right
 
     def _qb_mod(self, a, b):
         a = int(round(a))
